@@ -177,7 +177,8 @@ pub mod net {
                         let bytes = match encode_ipc(&r.schema, &r.batches) { Ok(b) => b, Err(_) => return };
                         let hdr = vec![("x-qe-rows".to_string(), r.row_count.to_string()), ("x-qe-elapsed-ms".to_string(), "1.000".to_string())];
                         if m == "garbage" {
-                            let g = b"this is not an arrow stream".to_vec();
+                            // first four bytes = a NEGATIVE little-endian length: rejected at once (ASCII text there would make arrow zero-fill ~2 GB first)
+                            let g = b"\xf0\xff\xff\xffthis is not an arrow stream".to_vec();
                             write_response(&mut s, 200, "application/vnd.apache.arrow.stream", &hdr, g.len(), &g).await;
                             return;
                         }
